@@ -11,6 +11,7 @@ RULES = {
     "L4": "every constructor of a PriceLevel value either starts empty (zero counters, OrderQueue::new()) or derives the three counters from the very order list it queues (refresh_aggregates fold) ",
     "L5": "total_quantity returns load(visible) + load(hidden)",
     "L6": "every fetch_sub operand is bounded by the counted contribution of an order taken on that path (its display/reserve, match_against's consumed/hidden_reduced, or old-new on the new<old branch)",
+    "L7": "the listing the aggregates are compared with (iter_orders -> OrderQueue::to_vec) shows each resting order exactly once: a collect over the id map's iteration, never the ticket queue (which may hold an id twice or ids of removed orders)",
     "L0": "coverage: the mutators are add_order, match_order, update_order plus every other function found (from the MIR, on every run) to write a counter or the queue of a level passed as its first parameter; every function that writes a level's counters or queue is one of them or reached from one; every mutator has queue effects, every OrderUpdate variant is analysed, no path ends undecided",
 }
 
@@ -482,6 +483,11 @@ def run(ctx, chk):
     from ..lvlrules import rule_unanalysed_writers
     rule_unanalysed_writers(ctx, chk, L, "L0")
     check_constructors(ctx, chk, L)
+    rule_readd_every_element(ctx, chk, "L4")
+    from ..queue import QueueAnalysis
+    Q = QueueAnalysis(ctx)
+    Q.rule_to_vec(chk, "L7")
+    Q.rule_one_store(chk, "L7")
     # L5
     for ty, nm in (("PriceLevel", "total_quantity"),):
         b = ctx.db.method(ty, nm)
@@ -507,3 +513,47 @@ def run(ctx, chk):
                     if isinstance(x, tuple) and x[0] == "field":
                         names.add(x[3])
             chk.require(names == {"visible_quantity", "hidden_quantity"}, "L5", b.defp, b.span, "snapshot total_quantity returns %s" % short(t))
+
+
+def rule_readd_every_element(ctx, chk, rid):
+    """TryFrom<PriceLevelData>: the level is PriceLevel::new(data.price) and *every* element of data.orders is handed to
+    add_order exactly once, unchanged, in iteration order (no element is skipped, altered or added twice)"""
+    db = ctx.db
+    b = db.method("PriceLevel", "try_from", trait="TryFrom")
+    add = db.method("PriceLevel", "add_order")
+    new = db.method("PriceLevel", "new")
+    w = ctx.walker(max_depth=4)
+    w.no_inline = lambda p: p in (add.defp, new.defp)
+    res = w.walk(b)
+    n_iter = 0
+    key = b.defp + ":re-add"
+    for r in res:
+        if r.kind in ("unreachable", "panic"):
+            continue
+        loops = [e for e in r.trace if e[0] == "loop"]
+        if r.kind == "backedge":
+            seg = r.since_loop()
+            adds = [e for e in seg if e[0] == "call" and e[1] == cname_of(add.defp)]
+            nexts = [e for e in seg if e[0] == "call" and e[1].endswith("::next") and r.facts.variant.get(e[3]) == "Some"]
+            if not nexts:
+                continue
+            n_iter += 1
+            ok = len(adds) == 1 and len(nexts) == 1
+            elem = ("field", nexts[0][3], "Some", "0")
+            okarg = ok and len(adds[0][2]) == 2 and adds[0][2][1] == elem
+            chk.require(ok and okarg, rid, key + ":each-element-once", b.span,
+                        "an iteration over the decoded orders calls add_order %d time(s)%s: the rebuilt level would not hold exactly the decoded orders" % (
+                            len(adds), "" if not adds or okarg else " with %s instead of the element" % short(adds[0][2][1])[:80]),
+                        describe_path(r))
+            # the iterator: a loop-carried local initialised before the loop, or (internal iteration) the receiver of for_each
+            src = list((loops[-1][2] if loops else {}).values()) + [nexts[0][2][0] if nexts[0][2] else None]
+            it_ok = any(isinstance(v, tuple) and v[0] == "call" and v[1].endswith("into_iter") and "orders" in short(v) and ".rev" not in short(v) and "filter" not in short(v)
+                        for v in src)
+            chk.require(it_ok, rid, key + ":iterates-data-orders", b.span, "the loop does not iterate data.orders itself: %s" % [short(v)[:60] for v in src][:3], describe_path(r))
+        elif r.kind == "return":
+            v = r.value
+            if isinstance(v, tuple) and v[0] == "agg" and v[2] == "Ok":
+                news = [e for e in r.trace if e[0] == "call" and e[1] == cname_of(new.defp)]
+                okn = len(news) == 1 and "price" in short(news[0][2][0]) and dict(v[3]).get("0") == news[0][3]
+                chk.require(okn, rid, key + ":new-with-data-price", b.span, "the level returned is not PriceLevel::new(data.price): %s" % short(dict(v[3]).get("0"))[:80], describe_path(r))
+    chk.require(n_iter >= 1, rid, key + ":has-loop", b.span, "no iteration over the decoded orders found")
